@@ -163,6 +163,12 @@ def c06_file(case, r):
 def c06(kind, case, r):
     if case.get("mode") == "file":
         return c06_file(case, r)
+    has_dups = any(c.get("same_as") for c in case.get("calls", []))
+    if case.get("cache") and has_dups and cancelled_true(r):
+        killed = [n for n, e in r["ents"].items() if n[0] == "W" and e[1] == "InvalidStateError"]
+        if killed:
+            return tag("cache hit on a cancelled future: set_result raises InvalidStateError and kills worker thread(s) %r; "
+                       "futures %r" % (killed, r["futures"]), "D18")
     any_cancel = bool(cancelled_true(r)) or any(o[0] == "shutdown" and len(o) > 2 and o[2] for o in case.get("ops", []))
     if any_cancel and not has_fail(case):
         if "R:result" in r.get("blocked_kinds", []):
@@ -172,8 +178,9 @@ def c06(kind, case, r):
             why = "the program blocks for ever after a cancellation: parked %r" % (r.get("parked"),)
             return why
     bodies = {lab[1] for en, pick, lab in r["trace"] if lab[0] == "body"}
+    has_dups = any(c.get("same_as") for c in case.get("calls", []))
     for i in cancelled_true(r):
-        if i in bodies:
+        if i in bodies and not has_dups:
             return "cancel() returned True for call %d but its function was executed" % i
         if r["futures"].get(str(i)) != "cancelled":
             return "cancel() returned True for call %d but its future ends as %s" % (i, r["futures"].get(str(i)))
@@ -187,7 +194,7 @@ def c06(kind, case, r):
     if not has_fail(case):
         for i in submitted_ids(r):
             st = r["futures"].get(str(i), "pending")
-            if st.startswith("res:") and st != "res:v%d" % i:
+            if st.startswith("res:") and st != "res:v%d" % case["calls"][i - 1].get("same_as", i) and st != "res:None":
                 return "future %d holds %s" % (i, st)
             if r["verdict"] != "deadlock" and not done_state(st):
                 return "future %d is %s at the end (lost through a cancellation?)" % (i, st)
